@@ -638,6 +638,7 @@ struct LcSim : Harness {
     bool c2m_ok = cfg.geti("c2mir", 1) != 0;
     std::set<size_t> remaining; for (size_t i = 0; i < nm; i++) remaining.insert(i);
     if (r.chance(1, 3)) push({"geninit"});
+    std::vector<size_t> linked_so_far;
     bool noexec = m == "C17" && r.chance(1, 10);
     // programs with lref tables keep to one engine family (known finding: the table is shared between engines), except
     // in a few probing runs of the modes whose statements cover engine mixing
@@ -664,7 +665,20 @@ struct LcSim : Harness {
       if (iface == 4 && !probe_mix && (int) kn.geti("placement", 1) >= P_SPREAD_4G) iface = 3;  // bb thunks reach only +-2GB (known finding, probed rarely)
       if (iface == 4) any_bb = true;
       push({"link", iface, 0});
-      if (r.chance(1, 2) && !remaining.empty()) { const auto &mo = prog.at("mods")[*step.begin()]; if (mo.at("funcs").size()) push({r.chance(2, 3) || family == 2 || any_bb ? "call" : "interp", mo.at("funcs")[0].gets("name"), rnd_args()}); }
+      // between link steps: execute, interpret or explicitly generate functions of the modules linked so far (a function may get
+      // its code while a callee in the same module has none yet, before a later step generates eagerly)
+      if (!remaining.empty()) {
+        for (auto x : step) linked_so_far.push_back(x);
+        int nb = r.chance(1, 2) ? 0 : (int) r.range(1, 3);
+        for (int q = 0; q < nb; q++) {
+          const auto &mo = prog.at("mods")[linked_so_far[r.below(linked_so_far.size())]]; if (!mo.at("funcs").size()) continue;
+          const std::string fnm = mo.at("funcs")[r.below(mo.at("funcs").size())].gets("name"); unsigned c = (unsigned) r.below(100);
+          if (c < 45) push({"call", fnm, rnd_args()});
+          else if (c < 60 && family != 2 && !any_bb) push({"interp", fnm, rnd_args()});
+          else if (c < 90 && family != 1 && iface != 0) push({"gen", fnm});
+          else push({"opt", (int) r.below(4)});
+        }
+      }
     }
     int nuse = (int) r.range(2, 10);
     for (int i = 0; i < nuse; i++) {
